@@ -195,8 +195,11 @@ def _draw_slot(draw, slot, signame, depth, mode):
         pre = _draw_pre(draw, 'm')
         if draw(_S_INT) < 67:
             return ['braced', pre, draw(items_strategy(signame, depth - 1, m, False))]
-        if draw(_S_INT) < 50:
+        r = draw(_S_INT)
+        if r < 45:
             tok = ['text', draw(st.sampled_from(list(LETTERS + '012')))]
+        elif r < 60 and '~' in sig['specials']:
+            tok = ['specials', '~']        # an argument-less specials as the single-token argument
         else:
             arglessw = sorted(n for n, sl in sig['macros'].items() if not sl)
             n = draw(st.sampled_from(arglessw))
